@@ -125,6 +125,8 @@ func Main() {
 				o.StopAfter = next()
 			case "--tag":
 				o.Tag = next()
+			case "--slow-capped":
+				o.SlowCapped = true
 			case "--skip":
 				b, err := os.ReadFile(next())
 				if err == nil {
